@@ -117,7 +117,10 @@ def run_tlc(module, cfg_text, name=None, workers=None, simulate=None, depth=None
     if workers is None:
         workers = NCPU
     cmd = ["java", "-Xss512m", "-Xmx" + heap, "-XX:+UseParallelGC", "-XX:ParallelGCThreads=%d" % max(2, min(8, (workers or NCPU))),
-           "-XX:CICompilerCount=2", "-XX:TieredStopAtLevel=1" if simulate is None and False else "-XX:+TieredCompilation", "-cp", JAR, "tlc2.TLC",
+           "-XX:CICompilerCount=2", "-XX:TieredStopAtLevel=1" if simulate is None and False else "-XX:+TieredCompilation",
+           # the queue of unexplored states stays in memory: the disk-backed default fails in this TLC build once it starts writing
+           # ("when writing the disk (StatePoolWriter.run): ... this.elems is null") on the larger generator runs
+           "-Dtlc2.tool.queue.IStateQueue=MemStateQueue", "-cp", JAR, "tlc2.TLC",
            "-metadir", meta, "-config", cfg, "-noGenerateSpecTE"]
     if workers is None:
         workers = NCPU
